@@ -96,8 +96,12 @@ def extra(ex, ck, worst):
                     ck.nontrivial((strategy, data, v[:3], tuple(cfg.items())))
                     if run1.exc == "CapHit" or run1.tests > bound or run1.exc not in (None,):
                         grew = any(len(d2) > len(d1) for (_, d1, a1), (_, d2, _) in zip(run1.seen, run1.seen[1:]))
-                        key = "replace-arguments-unbounded" if (strategy == "replace-arguments-by-globals"
-                                                                and run1.exc == "CapHit" and grew) else None
+                        # the known finding is THIS input under an always-yes test with a repeating mode; any other
+                        # non-terminating input / verdict sequence is a new violation
+                        key = "replace-arguments-unbounded" if (
+                            strategy == "replace-arguments-by-globals" and run1.exc == "CapHit" and grew
+                            and data == b"function foo(a) {}\nfoo(function foo(x){})\n" and set(v) == {"Y"}
+                            and cfg.get("repeat", "last") != "never") else None
                         ck.violation(f"{strategy} on {data!r} with verdicts {v[:6]}...: {run1.tests} tests "
                                      f"(cap {min(bound, 400)}, bound (B+2)^2 = {bound}), exc={run1.exc}, last file "
                                      f"{len(run1.seen[-1][1])} bytes vs original {B}",
